@@ -277,6 +277,31 @@ theorem C13_shutdown_completes {b a : Bool} {s : State} (h : Reachable true b a 
   · intro s hg hp hr
     exact progress hg hp.1 hp.2.1 (fun _ _ _ _ _ _ _ _ => Or.inr hp.2.2) hr
 
+/-- (a) end to end, for one call: take ANY reachable state in which shutdown has been requested —
+so the signal may have fired before the call's response headers, mid-stream or as it completes —
+and a call the server has accepted there whose caller is still present.  If handlers are left to
+run, the server by its own steps reaches a state where the serve future has resolved and THIS call
+(same slot, same true outcome) has been received by its caller completely. -/
+theorem C13_accepted_call_runs_to_completion {b a : Bool} {s : State} {c j : Nat} {cn : Conn}
+    {k : Call} (h : Reachable true b a s) (hreq : ShutdownRequested s) (hfree : s.freeRun = true)
+    (hc : s.conns[c]? = some cn) (hk : cn.calls[j]? = some k)
+    (hst : k.started = true) (hcan : k.cancelled = false) (hpg : cn.peerGone = false) :
+    ∃ ls s' cn' k', (∀ l ∈ ls, l.internal = true) ∧ run s ls = some s' ∧ s'.resolved = true
+      ∧ s'.conns[c]? = some cn' ∧ cn'.calls[j]? = some k' ∧ k'.plan = k.plan
+      ∧ (callView cn' k').got = k.plan.map toOut := by
+  obtain ⟨ls, s', hall, hrun, hres, _⟩ := C13_shutdown_completes h hreq hfree
+  obtain ⟨cn', k', h1, h2, h3, h4, h5, h6, _, _⟩ :=
+    run_keeps_call hall hrun (KeptIn.self hc hk hcan hpg)
+  have hg' := good_run (good_reachable h) hrun
+  have hgr : s'.cfgGraceful = true := (reachable_cfg (reachable_run h hrun)).1
+  have hk' := hg'.conns cn' (mem_of_getElem? h1)
+  have hkm := mem_of_getElem? h2
+  have hcl := hk'.resolved_closed hres hgr (hk'.hs_acc (hk'.started_hs k' hkm (h5 hst)))
+  have hcomp := hk'.closed_calls hcl h4 k' hkm (h5 hst) h3
+  refine ⟨ls, s', cn', k', hall, hrun, hres, h1, h2, h6, ?_⟩
+  rw [callView_complete (hk'.calls_ok k' hkm) hcomp]
+  simp [callView, h6]
+
 -- hypotheses are satisfiable: a reachable, resolved state with an accepted connection and a
 -- completed call (signal placed while the call is in flight)
 example : ∃ s, Reachable true true false s ∧ s.resolved = true
@@ -323,5 +348,15 @@ example : ∃ s s' cn k, Reachable true true false s ∧ step s (.connSig 0) = s
   refine ⟨_, _, _, _, reachable_run (ls := [.offer, .loopAccept 0, .hsDone 0,
       .issue 0 [[.hdr], [.status 0]], .callStart 0 0, .sigFire, .loopSig, .afterLoop]) .init rfl,
     rfl, rfl, rfl, rfl, rfl, rfl⟩
+
+-- … and those of `C13_accepted_call_runs_to_completion`: the signal fires mid-stream (headers and
+-- one message delivered, more to come), handlers then run freely
+example : ∃ s cn k, Reachable true true false s ∧ ShutdownRequested s ∧ s.freeRun = true
+    ∧ s.conns[0]? = some cn ∧ cn.calls[0]? = some k ∧ k.started = true ∧ k.cancelled = false
+    ∧ cn.peerGone = false ∧ k.recv = 2 ∧ k.todo.length = 2 := by
+  refine ⟨_, _, _, reachable_run (ls := [.offer, .loopAccept 0, .hsDone 0,
+      .issue 0 [[.hdr], [.msg 0], [.msg 1], [.status 0]], .callStart 0 0, .permit 0 0,
+      .produce 0 0, .deliver 0 0, .permit 0 0, .produce 0 0, .deliver 0 0, .sigFire, .freeRun])
+      .init rfl, Or.inl rfl, rfl, rfl, rfl, rfl, rfl, rfl, rfl, rfl⟩
 
 end C13
